@@ -397,22 +397,20 @@ def catalogue(tier):
                    [{"dir": "fwd", "arity": 2, "pos": 1, "map": {}}, {"dir": "rev", "arity": 2, "pos": 0, "map": {}, "order": 0}],
                    nbase=0, W=3, Bv=3))
     if tier == "thorough":
+        # the same configurations with counts up to 3, and (statistics present) with statistic values 0..2 on a single size;
+        # a variant is only kept if it has at most 10 symbolic entries (every entry forks on zero / non-zero)
         more = []
         for c in cs:
-            if c["kind"] != "path":
-                d = dict(c)
-                d["name"] = c["name"] + "-V2"
-                d["V"] = 2 if all(len(ch["params"]) <= 1 for ch in c["children"]) else 1
-                d["B"] = 3
-                d["W"] = 3 if c["kind"] == "union" else 2
-                more.append(d)
-            else:
-                d = dict(c)
-                d["name"] = c["name"] + "-big"
-                d["V"] = 2 if c["nbase"] <= 1 else 1
-                d["B"] = 3
-                d["W"] = 3
-                more.append(d)
+            variants = [dict(c, name=c["name"] + "-B3", B=3)]
+            if c["kind"] == "path":
+                if c["nbase"] >= 1:
+                    variants.append(dict(c, name=c["name"] + "-V2", V=2, W=1, B=2))
+            elif any(ch["params"] for ch in c["children"]):
+                variants.append(dict(c, name=c["name"] + "-V2", V=2, W=1, B=2))
+            for d in variants:
+                on_shape(d)
+                if LEN <= 10:
+                    more.append(d)
         cs += more
     return cs
 
@@ -465,7 +463,7 @@ def meta(tier):
                             "two-onto-one, swap, child tracking more; equivalence forms with the non-empty child in each position; paths "
                             "of 2-3 steps with reverse steps); children are finite classes with W=2..3 consecutive sizes, statistic "
                             "values 0..1, counts 0..2/3 - all symbolic" % len(catalogue("quick")),
-                   "thorough": "the same catalogue plus each configuration with W=3, values 0..2, counts 0..3"}[tier],
+                   "thorough": "the same catalogue plus each configuration with counts 0..3 and (with statistics) with statistic values 0..2 on one size"}[tier],
         "outside": [">2 statistics, arity >3", "children whose true terms violate the documented contracts (a dropped statistic that is "
                     "non-zero, terms below the declared minimum size)", "reverse forms whose counted child tracks a statistic the parent "
                     "does not (the child's table is then not a function of the inputs)",
